@@ -143,8 +143,12 @@ def dpopParse (supported : List String) (typ : String) (E : Env) (claimsOK : Boo
 
 /-! ### dag.ParseTransaction + NewTransactionSignatureVerifier -/
 
-def dagTx (allowed : List String) (rejectsPrivateJwk : Bool) (E : Env) (otherHeadersOK : Bool) (j : Jws) : Outcome :=
+def dagTx (allowed : List String) (rejectsPrivateJwk : Bool) (strictFraming : Bool) (E : Env) (otherHeadersOK : Bool)
+    (framingOK : Bool) (j : Jws) : Outcome :=
   if !j.parses then .reject
+  -- isJWSSerialization(input): a JSON object, or exactly three canonical unpadded base64url segments (a verdict on the
+  -- concrete bytes, supplied as data)
+  else if strictFraming && !framingOK then .reject
   else match j.sigs with
     | [] => .reject                                        -- "JWS does not contain any signature"
     | [s] =>
